@@ -356,37 +356,47 @@ theorem DComp.structM_encode_eq {P : EncState → Prop} (hP : ModelInv P) (ms : 
     have h2 := hcore.trans (hg.core _ _ hin)
     exact ⟨h2.1, h2.2.1, h2.2.2.1, h2.2.2.2.1, rfl⟩
 
+theorem DComp.structM_good {P : EncState → Prop} (ms : List MComp) (hok : MComps.okAll P ms) :
+    Good (DComp.struct (MComps.cs ms)).pair := ((MComps.good ms hok).inOrigin).map _
+
+theorem DComp.structM_enc_cursor {P : EncState → Prop} (ms : List MComp) (hok : MComps.okAll P ms) (s : EncState) :
+    ((DComp.struct (MComps.cs ms)).pair.enc s).cursorByte = s.cursorByte + (DComp.struct (MComps.cs ms)).size := by
+  have h := MComps.enc_cursor ms hok { s with origin := s.cursorByte }
+  have hs := MComps.cur_shift ms hok 0 0 s.cursorByte
+  simp only [Nat.zero_add] at hs
+  show ((Comps.pair (MComps.cs ms)).enc { s with origin := s.cursorByte }).cursorByte = _
+  rw [h, hs]
+  simp only [DComp.struct]
+  omega
+
+theorem DComp.structM_decode_eq {P : EncState → Prop} (ms : List MComp) (hok : MComps.okAll P ms) (fuel : Nat)
+    (hf : (DComp.struct (MComps.cs ms)).need ≤ fuel) (d : DecState) (hcb : d.cursorBit = 0)
+    (hfit : (DComp.struct (MComps.cs ms)).pair.fits d) (hpre : (DComp.struct (MComps.cs ms)).decPre d) :
+    decodeDop fuel (DComp.struct (MComps.cs ms)).dop d true =
+      .ok (((DComp.struct (MComps.cs ms)).pair.dec d).1, ((DComp.struct (MComps.cs ms)).pair.dec d).2) := by
+  obtain ⟨f, rfl⟩ : ∃ f, fuel = f + 1 + 1 := ⟨fuel - 2, by simp only [DComp.struct] at hf; omega⟩
+  have hf' : Comps.need (MComps.cs ms) ≤ f := by simp only [DComp.struct] at hf; omega
+  have hfit' : (Comps.pair (MComps.cs ms)).fits { d with origin := d.cursorByte } := hfit
+  have hrun := MComps.decode_eq ms hok f hf' { d with origin := d.cursorByte } hcb hfit' hpre
+  simp only [DComp.struct, decodeDop, decodeComposite, bind, pure, run_bind, run_getS, run_modifyS, run_pure]
+  rw [hrun]
+  rfl
+
 /-- **closure under STRUCTURE with `mid` parameters**: the structure is an ordinary component (from every encoder state),
     provided the parameters are described for every state (all kinds but MATCHING-REQUEST-PARAM are) -/
 theorem DComp.structM_ok (ms : List MComp) (hok : MComps.okAll (fun _ => True) ms) (hn : Comps.namesOk (MComps.cs ms))
     (hlast : Comps.eopLast (MComps.cs ms)) (hmid : MComps.midNotLast ms) : (DComp.struct (MComps.cs ms)).Ok :=
-  { good := ((MComps.good ms hok).inOrigin).map _
+  { good := DComp.structM_good ms hok
     sup_ne_none := by simp [DComp.struct]
     originFree := (OriginFree.inOrigin (Comps.pair (MComps.cs ms))).map _
     dec_originFree := fun _ _ => rfl
     fits_originFree := fun _ _ => rfl
     encode_eq := fun fuel hf s hcb heop => DComp.structM_encode_eq ModelInv.trivial ms hok hn hlast hmid fuel hf s hcb heop True.intro
-    enc_cursor := by
-      intro s
-      have h := MComps.enc_cursor ms hok { s with origin := s.cursorByte }
-      have hs := MComps.cur_shift ms hok 0 0 s.cursorByte
-      simp only [Nat.zero_add] at hs
-      show ((Comps.pair (MComps.cs ms)).enc { s with origin := s.cursorByte }).cursorByte = _
-      rw [h, hs]
-      simp only [DComp.struct]
-      omega
+    enc_cursor := DComp.structM_enc_cursor ms hok
     dec_cursorBit := fun d h => MComps.dec_cursorBit ms hok { d with origin := d.cursorByte } h
     dec_msg := fun d => MComps.dec_msg ms hok { d with origin := d.cursorByte }
     dec_origin := fun _ => rfl
-    decode_eq := by
-      intro fuel hf d hcb hfit hpre
-      obtain ⟨f, rfl⟩ : ∃ f, fuel = f + 1 + 1 := ⟨fuel - 2, by simp only [DComp.struct] at hf; omega⟩
-      have hf' : Comps.need (MComps.cs ms) ≤ f := by simp only [DComp.struct] at hf; omega
-      have hfit' : (Comps.pair (MComps.cs ms)).fits { d with origin := d.cursorByte } := hfit
-      have hrun := MComps.decode_eq ms hok f hf' { d with origin := d.cursorByte } hcb hfit' hpre
-      simp only [DComp.struct, decodeDop, decodeComposite, bind, pure, run_bind, run_getS, run_modifyS, run_pure]
-      rw [hrun]
-      rfl }
+    decode_eq := DComp.structM_decode_eq ms hok }
 
 theorem DComp.structM_endOk {P : EncState → Prop} (ms : List MComp) (hok : MComps.okAll P ms) (hend : Comps.endOkAll (MComps.cs ms))
     (hlast : Comps.eopLast (MComps.cs ms)) : (DComp.struct (MComps.cs ms)).EndOk where
